@@ -30,6 +30,7 @@ type Verifier struct {
 	lockExempt func(ex *Exec, f *frame, st *State) Term
 	// per-exec scratch (reset by newExec)
 	compSorts  map[string]string
+	seedComps  map[string]string
 	globalSeen map[*Script]map[string]bool
 	typesSeen  map[*Script]map[string]types.Type
 	ifacesSeen map[*Script]map[string]*types.Interface
@@ -680,6 +681,9 @@ type FnResult struct {
 
 func (V *Verifier) newExec(fn *ssa.Function) *Exec {
 	V.compSorts = map[string]string{}
+	for k, v := range V.seedComps {
+		V.compSorts[k] = v
+	}
 	ex := &Exec{V: V, sc: newScript(), root: fn, notes: map[string]bool{}, counts: map[string]int{}, lkRequired: map[string]bool{}, lkInit: map[string]bool{}}
 	ex.sc.axiom(app(SBool, ">", ex.sc.declare("pre:"+compAlloc, SInt), intLit(0)))
 	ex.regComp(compAlloc, SInt)
@@ -687,7 +691,31 @@ func (V *Verifier) newExec(fn *ssa.Function) *Exec {
 	return ex
 }
 
+// verifyFunction runs the symbolic execution until the set of heap components it touches is stable: a havoc (at a call or
+// at a loop header) can only forget components that are registered, so a component first used AFTER such a havoc point
+// (in block order) must be known before the real pass. The first pass discovers them; its obligations are discarded.
 func (V *Verifier) verifyFunction(fn *ssa.Function, lockMode bool) *FnResult {
+	seed := map[string]string{}
+	var r *FnResult
+	for pass := 0; pass < 5; pass++ {
+		V.seedComps = seed
+		r = V.verifyFunctionOnce(fn, lockMode)
+		grew := false
+		for k, s := range V.compSorts {
+			if _, ok := seed[k]; !ok {
+				seed[k] = s
+				grew = true
+			}
+		}
+		if !grew {
+			break
+		}
+	}
+	V.seedComps = nil
+	return r
+}
+
+func (V *Verifier) verifyFunctionOnce(fn *ssa.Function, lockMode bool) *FnResult {
 	ex := V.newExec(fn)
 	ex.lockMode = lockMode
 	// a context privileged for the hook window is exempt from the state lock (documented protocol)
@@ -711,6 +739,12 @@ func (V *Verifier) verifyFunction(fn *ssa.Function, lockMode bool) *FnResult {
 		t := sc.declare("p:"+p.Name(), sc.sortOf(p.Type()))
 		params = append(params, t)
 		ex.wellTyped(entry, t, p.Type())
+		if _, isFunc := p.Type().Underlying().(*types.Signature); isFunc {
+			// a function-valued parameter is not one of this function's own function literals (standing assumption)
+			for _, an := range fn.AnonFuncs {
+				sc.assert(not(eq(t, ex.funcRef(an))))
+			}
+		}
 	}
 	for _, fv := range fn.FreeVars {
 		t := sc.declare("fv:"+fv.Name(), sc.sortOf(fv.Type()))
@@ -1189,6 +1223,14 @@ func (V *Verifier) modSet(fn *ssa.Function) map[string]bool {
 						if V.isPure(name) {
 							continue
 						}
+						if ct := V.contracts[name]; ct != nil {
+							// ghost state a contracted callee declares it updates is written by whoever calls it
+							for _, it := range ct.AlsoMods {
+								if gv, ok := V.specs.ghosts[it]; ok {
+									d["G:"+gv.Name] = true
+								}
+							}
+						}
 						if ct := V.contracts[name]; ct != nil && ct.HasMods {
 							V.contractWrites(ct, d)
 							continue
@@ -1219,6 +1261,13 @@ func (V *Verifier) modSet(fn *ssa.Function) map[string]bool {
 						}
 					} else if cc.IsInvoke() {
 						key := "iface:" + typeStr(cc.Value.Type()) + "." + cc.Method.Name()
+						if ct := V.contracts[key]; ct != nil {
+							for _, it := range ct.AlsoMods {
+								if gv, ok := V.specs.ghosts[it]; ok {
+									d["G:"+gv.Name] = true
+								}
+							}
+						}
 						if ct := V.contracts[key]; ct != nil && ct.HasMods {
 							V.contractWrites(ct, d)
 							continue
